@@ -45,6 +45,16 @@ func (p *Parser) Error(msg string) {
 	p.errHandlerFunc(errors.NewError(msg, p.currentToken.Position))
 }
 
+// report delivers a semantic error found by a grammar action to the error
+// handler, if one is installed
+func (p *Parser) report(e *errors.Error) {
+	if p.errHandlerFunc == nil {
+		return
+	}
+
+	p.errHandlerFunc(e)
+}
+
 // Parse the php7 Parser entrypoint
 func (p *Parser) Parse() int {
 	p.rootNode = nil
